@@ -1,9 +1,11 @@
 import Infretis.Lemmas.RepexC03Load
+import Infretis.Lemmas.RepexC03RInit
 import Infretis.Lemmas.RepexC05Pos
 /-!
 # C05 — the weight-family / matchability invariant `Fam` of the replica-exchange state
 
-`Fam s tn` (on top of C03's slot/lock invariant `Core`):
+`Fam s tn` (on top of C03's slot/lock invariant `CoreR`, which covers restarted runs; `Core`
+implies it, `Core.toR`):
 * `rows`   slot 0 holds a minus row `(w,0,…,0)`, `w > 0`; every other real slot a staircase plus row
            (zero in column 0, positive on columns `1..cnt`, zero after, `cnt ≤ n-2`),
 * `perm`   the idle block has a positive permanent (it admits a perfect matching),
@@ -113,9 +115,88 @@ theorem rows_nonneg (n : Nat) (W : Mat) (locks : List Bool) (hlenL : locks.lengt
   rw [List.getD_eq_getElem?_getD, hr] at this
   exact this.nonneg x hx
 
-theorem Fam.nonneg {s : St} {H : List (Nat × Nat)} {tn tn' : Nat} (hc : Core s H tn') (hf : Fam s tn) :
+/-- C03's fresh-start invariant is the special case `locked0 = []` of the restart-aware one -/
+theorem Core.toR {s : St} {H : List (Nat × Nat)} {tn : Nat} (h : Core s H tn) : CoreR s H tn :=
+  ⟨h.n2, h.lenW, h.lenT, h.lenL, h.ghost, h.busy, h.nodup, h.heldOk, h.live, h.inj,
+    fun _ => Resv.ofNil h.l0⟩
+
+theorem Fam.nonneg {s : St} {H : List (Nat × Nat)} {tn tn' : Nat} (hc : CoreR s H tn') (hf : Fam s tn) :
     NonNegM (idle s.W s.locks) :=
   rows_nonneg s.n s.W s.locks hc.lenL hc.ghost hf.rows
+
+/-! ### identity matching: a positive diagonal gives a positive permanent -/
+
+theorem permC_nil : permC ([] : Mat) = 1 := rfl
+
+theorem entry_minor_lt (N : Mat) (m k : Nat) (hk : k < m) (hm : m < N.length) :
+    entry (minor N m m) k k = entry N k k := by
+  unfold entry minor
+  have hk' : k < (N.eraseIdx m).length := by rw [List.length_eraseIdx, if_pos hm]; omega
+  rw [List.getD_eq_getElem?_getD (l := List.map _ _), List.getElem?_map,
+    List.getElem?_eq_getElem hk']
+  simp only [Option.map_some, Option.getD_some]
+  rw [getD_eraseIdx, if_pos hk, List.getElem_eraseIdx_of_lt hk' hk]
+  rw [List.getD_eq_getElem?_getD (l := N), List.getElem?_eq_getElem (by omega)]
+  rfl
+
+/-- **identity matching**: a non-negative square matrix with a positive diagonal has a positive
+    permanent -/
+theorem permC_pos_of_diag : ∀ (m : Nat) (N : Mat), N.length = m → NonNegM N →
+    (∀ k, k < m → 0 < entry N k k) → 0 < permC N := by
+  intro m
+  induction m with
+  | zero =>
+    intro N hlen _ _
+    have : N = [] := List.eq_nil_of_length_eq_zero hlen
+    subst this
+    rw [permC_nil]; exact zero_lt_one
+  | succ m ih =>
+    intro N hlen hnn hdiag
+    have hge := permC_ge_term N hnn m m (by omega) (by omega)
+    have hmin : 0 < permC (minor N m m) := by
+      apply ih
+      · rw [length_minor N m m (by omega)]; omega
+      · exact hnn.minor m m
+      · intro k hk
+        rw [entry_minor_lt N m k hk (by omega)]
+        exact hdiag k (by omega)
+    exact lt_of_lt_of_le (mul_pos (hdiag m (by omega)) hmin) hge
+
+/-- positive diagonal on the idle slots ⇒ the idle block has a positive permanent -/
+theorem idle_perm_pos_of_diag (n : Nat) (W : Mat) (locks : List Bool) (hlenW : W.length = n)
+    (hlenL : locks.length = n) (hghost : locks[n - 1]? = some true)
+    (rows : ∀ i, i < n - 1 → RowOk n i (W.getD i []))
+    (hdiag : ∀ i : Nat, locks[i]? = some false → entry W i i ≠ 0) : 0 < permC (idle W locks) := by
+  have hWL : W.length = locks.length := by rw [hlenW, hlenL]
+  have hnn := rows_nonneg n W locks hlenL hghost rows
+  apply permC_pos_of_diag (nIdle locks) _ (idle_length W locks hWL) hnn
+  intro k hk
+  obtain ⟨i, hi, rfl⟩ := exists_idle_of_lt_nIdle locks k hk
+  rw [idle_entry W locks i i hWL hi hi]
+  have h1 := getElem?_lt_of_some _ _ _ hi
+  have hlt : i < n - 1 := by
+    by_cases heq : i = n - 1
+    · rw [heq, hghost] at hi; exact absurd hi (by simp)
+    · omega
+  have h0 : 0 ≤ entry W i i := by
+    unfold entry
+    rw [List.getD_eq_getElem?_getD (l := W.getD i [])]
+    cases hx : (W.getD i [])[i]? with
+    | none => simp
+    | some x => exact (rows i hlt).nonneg x (List.mem_of_getElem? hx)
+  exact lt_of_le_of_ne h0 (Ne.symm (hdiag i hi))
+
+/-- while recorded jobs of a restart file are still to be re-issued (`toinitiate ≥ 0`,
+    `locked0 ≠ []`) every idle slot still holds a path with non-zero weight in its own ensemble:
+    no pick has swapped anything yet -/
+def DiagR (s : St) : Prop :=
+  0 ≤ s.toinitiate → s.locked0 ≠ [] → ∀ i : Nat, s.locks[i]? = some false → entryM s.W i i ≠ 0
+
+theorem DiagR.of_fresh {s : St} (h : s.toinitiate < 0 ∨ s.locked0 = []) : DiagR s := by
+  intro h0 hne
+  rcases h with h | h
+  · omega
+  · exact absurd h hne
 
 /-! ### swapping two slots -/
 
@@ -193,10 +274,10 @@ theorem zero_iff_of_entry_ne {s : St} {tn : Nat} (hf : Fam s tn) (t e : Nat) (ht
 
 /-! ### one pick step: `swap(t, e)`, `lock(e)` for a positive-probability `(t, e)` -/
 
-theorem lockStep_fam {s s2 : St} {H : List (Nat × Nat)} {tn tn' : Nat} (hc : Core s H tn')
+theorem lockStep_fam {s s2 : St} {H : List (Nat × Nat)} {tn tn' : Nat} (hc : CoreR s H tn')
     (hf : Fam s tn) (t e : Nat) (hpos : 0 < entryM (prob s) t e)
     (hl : lock (swap s t e) e = .ok s2) : Fam s2 tn := by
-  obtain ⟨ht, he, hw⟩ := prob_pos hc t e hpos
+  obtain ⟨ht, he, hw⟩ := prob_posR hc t e hpos
   have ht' := hc.unlocked_lt t ht
   have he' := hc.unlocked_lt e he
   have h0 := zero_iff_of_entry_ne hf t e ht' he' hw
@@ -214,9 +295,10 @@ theorem lockStep_fam {s s2 : St} {H : List (Nat × Nat)} {tn tn' : Nat} (hc : Co
 
 /-! ### `pick()` and `pick_lock()` and `prep_md_items` -/
 
-theorem pickCore_fam {s s' : St} {H : List (Nat × Nat)} {tn tn' : Nat} (hc : Core s H tn')
+theorem pickCore_fam {s s' : St} {H : List (Nat × Nat)} {tn tn' : Nat} (hc : CoreR s H tn')
     (hf : Fam s tn) (o : PickOutcome) (pairs : List (Int × Option Nat)) (ds : List Draw)
-    (hp : pickCore s o = .ok (s', pairs, ds)) : Fam s' tn := by
+    (hp : pickCore s o = .ok (s', pairs, ds)) (hfresh : s.toinitiate < 0 ∨ s.locked0 = []) :
+    Fam s' tn := by
   unfold pickCore at hp
   simp only [] at hp
   split at hp
@@ -227,7 +309,7 @@ theorem pickCore_fam {s s' : St} {H : List (Nat × Nat)} {tn tn' : Nat} (hc : Co
   · exact absurd hp (by simp)
   rename_i s2 hl
   have hf2 := lockStep_fam hc hf o.t o.e hpos hl
-  obtain ⟨pn, _, hc2, _, _, _, _⟩ := lockStep_core hc o.t o.e hpos hl
+  obtain ⟨pn, _, hc2, ha2, _⟩ := lockStep_coreR hc o.t o.e hpos hl hfresh
   split at hp
   · by_cases he1 : (o.e == off) = true
     · simp only [he1, ↓reduceIte] at hp
@@ -259,9 +341,9 @@ theorem pickCore_fam {s s' : St} {H : List (Nat × Nat)} {tn tn' : Nat} (hc : Co
     obtain ⟨rfl, _, _⟩ := hp
     exact hf2
 
-theorem pick_fam {s s' : St} {H : List (Nat × Nat)} {tn tn' : Nat} (hc : Core s H tn')
+theorem pick_fam {s s' : St} {H : List (Nat × Nat)} {tn tn' : Nat} (hc : CoreR s H tn')
     (hf : Fam s tn) (o : PickOutcome) (ps : List Picked) (ds : List Draw)
-    (hp : pick s o = .ok (s', ps, ds)) : Fam s' tn := by
+    (hp : pick s o = .ok (s', ps, ds)) (hfresh : s.toinitiate < 0 ∨ s.locked0 = []) : Fam s' tn := by
   unfold pick at hp
   split at hp
   · exact absurd hp (by simp)
@@ -270,35 +352,170 @@ theorem pick_fam {s s' : St} {H : List (Nat × Nat)} {tn tn' : Nat} (hc : Core s
   · exact absurd hp (by simp)
   simp only [Except.ok.injEq, Prod.mk.injEq] at hp
   obtain ⟨rfl, _, _⟩ := hp
-  exact (pickCore_fam hc hf o pairs ds1 hpc).congr ⟨rfl, rfl, rfl, rfl, rfl, rfl, rfl⟩
+  exact (pickCore_fam hc hf o pairs ds1 hpc hfresh).congr ⟨rfl, rfl, rfl, rfl, rfl, rfl, rfl⟩
 
 theorem restoreStreamOnce_famEq (s : St) (d : Nat) : FamEq s (restoreStreamOnce s d) := by
   unfold restoreStreamOnce
   split <;> exact ⟨rfl, rfl, rfl, rfl, rfl, rfl, rfl⟩
 
-theorem pickLock_fam {s s' : St} {H : List (Nat × Nat)} {tn tn' : Nat} (hc : Core s H tn')
-    (hf : Fam s tn) (o : PickOutcome) (d : Nat) (ps : List Picked) (ds : List Draw)
-    (hp : pickLock s o d = .ok (s', ps, ds)) : Fam s' tn := by
+/-- the re-issue loop only sets locks: everything `Fam` reads besides the locks is unchanged, and
+    no slot becomes idle -/
+theorem reissueGo_shape : ∀ (l : List (Nat × Nat)) {s s' : St} {H : List (Nat × Nat)} {tn : Nat}
+    {pairs : List (Int × Option Nat)},
+    CoreR s H tn → 0 ≤ s.toinitiate → (l.map Prod.fst).Nodup →
+    (∀ e pn, (e, pn) ∈ l →
+      s.locks[e]? = some false ∧ s.trajs[e]? = some (some pn) ∧ entryM s.W e e ≠ 0) →
+    (∀ e pn, (e, pn) ∈ l → e ∉ (held0 s.locked0).map Prod.fst) →
+    reissue.go s l = .ok (s', pairs) →
+    s'.n = s.n ∧ s'.W = s.W ∧ s'.trajs = s.trajs ∧ s'.wts = s.wts ∧ s'.frac = s.frac ∧
+      s'.rows = s.rows ∧ (∀ i : Nat, s'.locks[i]? = some false → s.locks[i]? = some false) := by
+  intro l
+  induction l with
+  | nil =>
+    intro s s' H tn pairs _ _ _ _ _ hg
+    simp only [reissue.go, Except.ok.injEq, Prod.mk.injEq] at hg
+    obtain ⟨rfl, _⟩ := hg
+    exact ⟨rfl, rfl, rfl, rfl, rfl, rfl, fun _ h => h⟩
+  | cons x rest ih =>
+    intro s s' H tn pairs h h0 hnd hok hnot hg
+    obtain ⟨e, tr⟩ := x
+    obtain ⟨hle, hte, hwe⟩ := hok e tr (List.mem_cons_self ..)
+    have he := h.unlocked_lt e hle
+    simp only [List.map_cons, List.nodup_cons] at hnd
+    unfold reissue.go at hg
+    rw [findIdx_live h e tr he hte] at hg
+    simp only [swap_self] at hg
+    split at hg
+    · exact absurd hg (by simp)
+    rename_i s2 hl
+    obtain ⟨_, hs2⟩ := lock_ok hl
+    subst hs2
+    split at hg
+    · exact absurd hg (by simp)
+    rename_i s3 ps hrec
+    simp only [Except.ok.injEq, Prod.mk.injEq] at hg
+    obtain ⟨rfl, _⟩ := hg
+    have hc2 : CoreR { s with locks := s.locks.set e true } ((e, tr) :: H) tn :=
+      lock_coreR h e tr hle hte hwe rfl rfl rfl rfl
+        (fun h00 => (h.resv h00).lockOther e (hnot e tr (List.mem_cons_self ..)) rfl rfl rfl rfl)
+    obtain ⟨h1, h2, h3, h4, h5, h6, h7⟩ := ih (s := { s with locks := s.locks.set e true }) hc2 h0 hnd.2
+      (by
+        intro e' pn' hm
+        obtain ⟨g1, g2, g3⟩ := hok e' pn' (List.mem_cons_of_mem _ hm)
+        have hne : e ≠ e' := by
+          intro heq
+          exact hnd.1 (List.mem_map.mpr ⟨(e', pn'), hm, heq.symm⟩)
+        exact ⟨by show (s.locks.set e true)[e']? = _; rw [List.getElem?_set_ne hne]; exact g1, g2, g3⟩)
+      (fun e' pn' hm => hnot e' pn' (List.mem_cons_of_mem _ hm)) hrec
+    refine ⟨h1, h2, h3, h4, h5, h6, ?_⟩
+    intro i hi
+    have := h7 i hi
+    change (s.locks.set e true)[i]? = some false at this
+    by_cases hie : e = i
+    · subst hie
+      rw [List.getElem?_set_self (by rw [h.lenL]; omega)] at this
+      exact absurd this (by simp)
+    · rw [List.getElem?_set_ne hie] at this
+      exact this
+
+/-- **`pick_lock()`**: a fresh pick, or the re-issue of a recorded job (which only re-locks slots
+    whose paths still sit in their own ensembles) -/
+theorem pickLock_fam {s s' : St} {H : List (Nat × Nat)} {tn tn' : Nat} (hc : CoreR s H tn')
+    (hf : Fam s tn) (hd : DiagR s) (h0 : 0 ≤ s.toinitiate) (o : PickOutcome) (d : Nat)
+    (ps : List Picked) (ds : List Draw)
+    (hp : pickLock s o d = .ok (s', ps, ds)) : Fam s' tn ∧ DiagR s' := by
+  obtain ⟨hc', ha', _, _, _, _, _⟩ := pickLock_coreR hc h0 o d ps ds hp
   unfold pickLock at hp
-  rw [hc.l0] at hp
-  simp only [] at hp
-  exact pick_fam (hc.congr (restoreStreamOnce_coreEq s d)) (hf.congr (restoreStreamOnce_famEq s d)) o ps ds hp
+  split at hp
+  · rename_i hnil
+    have hfr : (restoreStreamOnce s d).toinitiate < 0 ∨ (restoreStreamOnce s d).locked0 = [] :=
+      Or.inr (by rw [(restoreStreamOnce_coreEqR s d).locked0]; exact hnil)
+    refine ⟨pick_fam (hc.congr (restoreStreamOnce_coreEqR s d))
+      (hf.congr (restoreStreamOnce_famEq s d)) o ps ds hp hfr, ?_⟩
+    obtain ⟨_, ha, _⟩ := pick_coreR (hc.congr (restoreStreamOnce_coreEqR s d)) o ps ds hp hfr
+    apply DiagR.of_fresh
+    right
+    rw [ha.locked0, (restoreStreamOnce_coreEqR s d).locked0]
+    exact hnil
+  · rename_i enss0 trajs0 rest hcons
+    split at hp
+    · exact absurd hp (by simp)
+    rename_i s1 pairs hre
+    split at hp
+    · exact absurd hp (by simp)
+    simp only [Except.ok.injEq, Prod.mk.injEq] at hp
+    obtain ⟨rfl, _, _⟩ := hp
+    have hR := hc.resv h0
+    have hnd := hR.nodup
+    rw [hcons, held0_cons, List.map_append, List.nodup_append] at hnd
+    have hok : ∀ e pn, (e, pn) ∈ enss0.zip trajs0 →
+        s.locks[e]? = some false ∧ s.trajs[e]? = some (some pn) ∧ entryM s.W e e ≠ 0 := by
+      intro e pn hm
+      apply hR.ok
+      rw [hcons, held0_cons]
+      exact List.mem_append_left _ hm
+    have hc0 : CoreR { s with locked0 := rest, locked0Ord := s.locked0Ord.tail } H tn' := by
+      refine { hc with resv := ?_ }
+      intro _
+      constructor
+      · intro en hen
+        exact hR.shape en (by rw [hcons]; exact List.mem_cons_of_mem _ hen)
+      · exact hnd.2.1
+      · intro e pn hm
+        apply hR.ok
+        rw [hcons, held0_cons]
+        exact List.mem_append_right _ hm
+    unfold reissue at hre
+    obtain ⟨h1, h2, h3, h4, h5, h6, h7⟩ := reissueGo_shape (enss0.zip trajs0) hc0 h0 hnd.1 hok
+      (by
+        intro e pn hm hin
+        exact hnd.2.2 e (List.mem_map.mpr ⟨(e, pn), hm, rfl⟩) e hin rfl)
+      hre
+    -- every idle slot of the old state has a non-zero diagonal; the new idle slots are among them
+    have hdiag : ∀ i : Nat, s1.locks[i]? = some false → entryM s1.W i i ≠ 0 := by
+      intro i hi
+      rw [h2]
+      exact hd h0 (by rw [hcons]; simp) i (h7 i hi)
+    have hrows : ∀ i, i < s1.n - 1 → RowOk s1.n i (s1.W.getD i []) := by
+      rw [h1, h2]; exact hf.rows
+    have hfam : Fam (reissued s s1 enss0 trajs0) tn := by
+      refine ⟨hrows, ?_, ?_, ?_, ?_, ?_⟩
+      · show 0 < permC (idle s1.W s1.locks)
+        exact idle_perm_pos_of_diag s1.n s1.W s1.locks hc'.lenW hc'.lenL hc'.ghost hrows hdiag
+      · show ∀ i pn, i < s1.n - 1 → s1.trajs[i]? = some (some pn) →
+          ∃ w, s1.wts.lookup pn = some w ∧ padValid (reissued s s1 enss0 trajs0) ((i : Int) - 1) w = s1.W.getD i []
+        rw [h1, h2, h3, h4]
+        intro i pn hi ht
+        obtain ⟨w, hw1, hw2⟩ := hf.wts i pn hi ht
+        exact ⟨w, hw1, by rw [padValid_n (s := s) (show (reissued s s1 enss0 trajs0).n = s.n from h1)]; exact hw2⟩
+      · show ∀ k ∈ s1.wts.map Prod.fst, k < tn
+        rw [h4]; exact hf.wkeys
+      · show ∀ k ∈ s1.frac.map Prod.fst, k < tn
+        rw [h5]; exact hf.fkeys
+      · show ∀ x ∈ s1.rows, x.1 < tn
+        rw [h6]; exact hf.rkeys
+    exact ⟨hfam, fun _ _ i hi => hdiag i hi⟩
 
 /-- `prep_md_items` keeps the family invariant; the job it returns records the picked paths -/
-theorem prep_fam {s s' : St} {H : List (Nat × Nat)} {tn tn' : Nat} (hc : Core s H tn')
-    (hf : Fam s tn) (prev : Option Nat) (o : PickOutcome) (saved : Nat) (job : Job) (ds : List Draw)
-    (h : prep s prev o saved = .ok (s', job, ds)) :
-    Fam s' tn ∧ job.pnumOld = job.picked.map (·.pn) := by
+theorem prep_fam {s s' : St} {H : List (Nat × Nat)} {tn tn' : Nat} (hc : CoreR s H tn')
+    (hf : Fam s tn) (hd : DiagR s) (prev : Option Nat) (o : PickOutcome) (saved : Nat) (job : Job)
+    (ds : List Draw) (h : prep s prev o saved = .ok (s', job, ds)) :
+    Fam s' tn ∧ DiagR s' ∧ job.pnumOld = job.picked.map (·.pn) := by
   unfold prep at h
   simp only [] at h
   generalize hpin : (if s.toinitiate ≥ 0 then some s.cworker else prev) = pin? at h
   split at h
   · exact absurd h (by simp)
   rename_i s1 ps ds1 hr
-  have hf1 : Fam s1 tn := by
+  have hf1 : Fam s1 tn ∧ DiagR s1 := by
     split at hr
-    · exact pickLock_fam hc hf o saved ps ds1 hr
-    · exact pick_fam hc hf o ps ds1 hr
+    · rename_i h0
+      exact pickLock_fam hc hf hd h0 o saved ps ds1 hr
+    · rename_i h0
+      have hfr : s.toinitiate < 0 ∨ s.locked0 = [] := Or.inl (by omega)
+      refine ⟨pick_fam hc hf o ps ds1 hr hfr, ?_⟩
+      obtain ⟨_, ha, _⟩ := pick_coreR hc o ps ds1 hr hfr
+      exact DiagR.of_fresh (Or.inl (by rw [ha.toinitiate]; omega))
   split at h
   · exact absurd h (by simp)
   split at h
@@ -307,6 +524,6 @@ theorem prep_fam {s s' : St} {H : List (Nat × Nat)} {tn tn' : Nat} (hc : Core s
   · exact absurd h (by simp)
   simp only [Except.ok.injEq, Prod.mk.injEq] at h
   obtain ⟨rfl, rfl, _⟩ := h
-  exact ⟨hf1.congr ⟨rfl, rfl, rfl, rfl, rfl, rfl, rfl⟩, rfl⟩
+  exact ⟨hf1.1.congr ⟨rfl, rfl, rfl, rfl, rfl, rfl, rfl⟩, hf1.2, rfl⟩
 
 end Infretis.Repex
